@@ -208,7 +208,7 @@ pub fn replay(case: &Value, _kf: &KnownFindings) -> Result<(), Failure> {
 
 pub fn run(ctx: &mut Ctx) {
     let thorough = ctx.tier == Tier::Thorough;
-    ctx.rule = format!("(a) counter arithmetic through the hook: all 65536 wire values x last in {{None}} + every value within +-70000 of {{0, 0xFFFF, 0x10000, 2^31-1, 2^31, 0xFFFF0000, 2^32-1}} ({}), plus random last values, against the rule 'unique N = wire (mod 2^16) with last < N <= last+16384'; (b) proptest device histories: ABP sessions whose accepted counter starts at None/0/0xFFFC..0x10002/0x1FFFF/2^32-16386/2^32-16..2^32-2/random, 1..10 transactions with deliveries in RX1/RX2/Class C gaps/idle drawn from fresh (delta 1,2,16383,16384), replayed, reordered, far-future (16385,65535,65536,65537), wrong-epoch MIC, bit-flipped, foreign, oversize (M+5+1..) and exactly-fitting (M+5) frames; nb, async, async+ClassC; 9 regions. Oracle: reference codec + the statement's rule decide accept/reject per delivered frame; device's remembered counter, responses and delivered payloads must match. Non-trivial: (a) pairs with wire within +-16400 of last mod 2^16 or crossing an epoch; (b) histories with >= 1 accepted frame and >= 1 frame rejected for freshness with a valid MIC", if thorough { "every value" } else { "stride 257" });
+    ctx.rule = format!("(a) counter arithmetic through the hook: all 65536 wire values x last in {{None}} + every value within +-70000 of {{0, 0xFFFF, 0x10000, 2^31-1, 2^31, 0xFFFF0000, 2^32-1}} ({}), plus random last values, against the rule 'unique N = wire (mod 2^16) with last < N <= last+16384'; (b) proptest device histories: ABP sessions whose accepted counter starts at None/0/0xFFFC..0x10002/0x1FFFF/2^32-16386/2^32-16..2^32-2/random, 1..10 transactions with deliveries in RX1/RX2/Class C gaps/idle drawn from fresh (delta 1,2,16383,16384), replayed, reordered, far-future (16385,65535,65536,65537), wrong-epoch MIC, bit-flipped, foreign, oversize (M+5+1..) and exactly-fitting (M+5) frames; nb, async, async+ClassC; 9 regions. (c) authentic frames of N-2, N-1 and N bytes delivered to devices whose radio buffer holds N = 64 / 255 bytes (RX1, RX2, Class C gap and idle listening; default and highest uplink data rate; 9 regions). Oracle: reference codec + the statement's rule decide accept/reject per delivered frame; device's remembered counter, responses and delivered payloads must match. Non-trivial: (a) pairs with wire within +-16400 of last mod 2^16 or crossing an epoch; (b) histories with >= 1 accepted frame and >= 1 frame rejected for freshness with a valid MIC", if thorough { "every value" } else { "stride 257" });
     ctx.exhaustive = thorough;
     ctx.assumptions = vec![
         "maximum frame size per data rate from RP002-1.0.3 (refregion); cells that differ between RP002 revisions are not judged".into(),
@@ -253,6 +253,60 @@ pub fn run(ctx: &mut Ctx) {
                 }
                 if let Err(f) = arith_one(last, w) {
                     st.fail(f);
+                }
+            }
+        }
+    });
+    // (c) frames that fill the device's radio buffer exactly (buffer sizes 64 and 255 instead of 256):
+    // what the radio hands over must reach the MAC unshortened
+    ctx.parallel(|ti, n, st| {
+        let mut k = 0usize;
+        for (front, size) in [(FrontKind::AsyncBuf64, 64usize), (FrontKind::AsyncBuf255, 255)] {
+            for region in REGIONS {
+                let reg = Reg::from_name(region.name()).unwrap();
+                let top_dr = (0..16u8).filter(|d| reg.is_uplink_dr(*d)).max().unwrap_or(0);
+                for total in [size - 2, size - 1, size] {
+                    for place in 0..4u8 {
+                        for confirmed in [false, true] {
+                            for fast in [false, true] {
+                                k += 1;
+                                if k % n != ti {
+                                    continue;
+                                }
+                                let frame = Recipe::Auth { delta: 1, confirmed, port: Some(5), payload_len: (total - 13) as u8, fopts: vec![], frm_cmds: vec![], ack: false, fpending: false };
+                                let quiet = Step::Send { port: 9, len: 1, confirmed: false, rx: RxPlan::default() };
+                                let mut steps = vec![];
+                                if fast {
+                                    steps.push(Step::SetDr(top_dr));
+                                }
+                                match place {
+                                    0 => steps.push(Step::Send { port: 9, len: 1, confirmed: false, rx: RxPlan::rx1(frame) }),
+                                    1 => steps.push(Step::Send { port: 9, len: 1, confirmed: false, rx: RxPlan::rx2(frame) }),
+                                    2 => steps.push(Step::Send { port: 9, len: 1, confirmed: false, rx: RxPlan { gap1: vec![frame], ..Default::default() } }),
+                                    _ => {
+                                        steps.push(quiet.clone());
+                                        steps.push(Step::RxcListen(vec![frame]));
+                                    }
+                                }
+                                steps.push(quiet);
+                                let h = History { cfg: DevCfg { region, join_bias: None, front, board: (14, 0) }, activation: Activation::Abp { fcnt_up: 5, fcnt_down: None }, board: Board::default(), rng_script: vec![], rng_seed: seed ^ k as u64, steps };
+                                st.eval();
+                                st.class("radio-buffer-boundary");
+                                match run_history(&h) {
+                                    Err(e) => st.fail(Failure::new("harness", h.json(), e)),
+                                    Ok((_, recs)) => match judge(&h, &recs) {
+                                        Ok((acc, _)) => {
+                                            if acc {
+                                                st.class(if total == size { "frame-fills-radio-buffer-accepted" } else { "frame-near-radio-buffer-accepted" });
+                                                st.nt_hash(hash_value(&h.json()));
+                                            }
+                                        }
+                                        Err(f) => st.fail(f),
+                                    },
+                                }
+                            }
+                        }
+                    }
                 }
             }
         }
